@@ -54,3 +54,83 @@ for _n in (2,):  # n >= 3 (a boosted sub-system: nested radicals with hidden squ
           tiers=("quick", "thorough") if _n <= 3 else ("thorough",), cost=10 * _n, no_native=True,
           bound="n = %d daughters (the induction over decay steps is unrolled)" % _n,
           assumes=["tf.random.uniform returns values in [0, 1] (fresh atoms)"])(_mk(_n))
+
+
+# ---------------------------------------------------------------------------------------------
+# acceptance of the intermediate masses: a PER-EVENT decision (added after seeded change C10-flatten_mass_batch_max)
+# ---------------------------------------------------------------------------------------------
+def _q(tf, M, a, b):
+    """two-body break-up momentum (spec, written from the textbook formula)"""
+    return tf.sqrt((M * M - (a + b) * (a + b)) * (M * M - (a - b) * (a - b))) / (2.0 * M)
+
+
+def _mk_accept(n, batch=2):
+    def g(ctx):
+        tf, shim = ctx.tf, ctx.shim
+        ps = ctx.mod("phasespace")
+        m0 = ctx.real("m0", (), lambda r: 5.0 + r.uniform(0, 1))
+        ms = [ctx.real("m%d" % i, (), lambda r: r.uniform(0.1, 0.4)) for i in range(1, n + 1)]
+        wmax = ctx.real("wmax", (), lambda r: r.uniform(1.5, 6.0))  # typical weights inside (0, 1): both outcomes of the comparison are sampled
+        ctx.require(wmax > 0.0)
+        for m in ms:
+            ctx.require(m >= 0.01)
+        inter = [ctx.real("M%d" % k, (batch,), (lambda k: (lambda r: [1.0 + 0.9 * k + r.uniform(0, 0.3) for _ in range(batch)]))(k)) for k in range(n - 2)]
+        gen = ps.PhaseSpaceGenerator.__new__(ps.PhaseSpaceGenerator)
+        gen.m0, gen.m_mass, gen.m_nt, gen.m_wtMax = m0, list(ms), n, wmax
+        gen.sum_mass = sum(ms[1:], ms[0])
+        gen.mass_range = gen.get_mass_range()
+        gen.mass_generator = [None for _ in gen.mass_range]
+        chain = [ms[-1]] + list(inter) + [m0]
+        for i in range(n - 1):
+            ctx.require(chain[i + 1] - chain[i] - ms[-i - 2] >= 0.01, "open channel at step %d" % i)
+        seen = {}
+        real_mask = ps.tf.boolean_mask
+
+        def spy(x, mask, *a, **k):
+            seen.setdefault("mask", mask)
+            return x  # the selection itself is the object of the contract; keep the shapes
+
+        draws = []
+        real_uniform = ps.tf.random.uniform
+
+        def uniform(shape, *a, **k):
+            # the random numbers are INPUTS of the contract (named symbols with a sampler, so that refutations come with concrete values)
+            t = ctx.real("u%d" % len(draws), tuple(int(x) for x in shape), lambda r, shape=shape: [r.uniform(0, 1) for _ in range(int(shape[0]))])
+            draws.append(t)
+            return t
+
+        ps.tf.boolean_mask = spy
+        ps.tf.random.uniform = uniform
+        try:
+            gen.flatten_mass(list(inter))
+        finally:
+            ps.tf.boolean_mask = real_mask
+            ps.tf.random.uniform = real_uniform
+        assert len(draws) == 1 and "mask" in seen, (len(draws), list(seen))
+        u = draws[0]
+        ctx.require(u >= 0.0)
+        ctx.require(u <= 1.0)
+        # spec: w_k = prod_i q(M_{i+1,k}; M_{i,k}, m_(n-i-1)) / w_max * (importance of the uniform proposals), event by event
+        w = None
+        for i in range(n - 1):
+            q = _q(tf, chain[i + 1], chain[i], ms[-i - 2])
+            w = q if w is None else w * q
+        w = w / wmax * gen.mass_importances(list(inter))
+        sel = seen["mask"]
+        spec = w > u
+        for k in range(batch):
+            ctx.holds("accept[%d]/only_if" % k, tf.logical_or(tf.logical_not(sel[k]), spec[k]),
+                      clause="event k accepted => weight_k > u_k, with weight_k a function of event k's masses alone (n=%d)" % n)
+            ctx.holds("accept[%d]/if" % k, tf.logical_or(sel[k], tf.logical_not(spec[k])),
+                      clause="weight_k > u_k => event k accepted: acceptance does not depend on the other events of the batch (n=%d)" % n)
+
+    return g
+
+
+for _n in (3, 4):
+    group(["C10"], "phasespace.flatten_mass/per_event_acceptance/n=%d" % _n,
+          ["phasespace:PhaseSpaceGenerator.flatten_mass", "phasespace:PhaseSpaceGenerator.get_weight", "phasespace:PhaseSpaceGenerator.mass_importances", "phasespace:get_p"],
+          cost=4 * _n, no_native=True, bound="n = %d daughters, a batch of 2 proposals (every pair of events)" % _n,
+          assumes=["tf.random.uniform returns independent values in [0, 1] (fresh atoms)",
+                   "A-MATH (Raubold-Lynch): accepting proposal k with probability prod q / w_max makes the accepted masses phase-space distributed; the contract is that the "
+                   "decision is exactly this per-event rule"])(_mk_accept(_n))
